@@ -207,12 +207,14 @@ def c07_json(ev):
     return [[a[0], [list(p) for p in a[1]], a[2]] for a in ev]
 
 
-def pairs_for(nodes, max_sub, max_g, max_d, stride=1, offset=0):
-    """(gamma, delta) with disjoint atom keys; gamma has <= max_g atoms, delta <= max_d atoms."""
+def pairs_for(nodes, max_sub, max_g, max_d, stride=1, offset=0, shapes=None):
+    """(gamma, delta) with disjoint atom keys; gamma has <= max_g atoms, delta <= max_d atoms (or exactly `shapes`)."""
     keys = atom_keys(nodes, max_sub)
     i = 0
     for kg in range(1, max_g + 1):
         for kd in range(1, max_d + 1):
+            if shapes is not None and (kg, kd) not in shapes:
+                continue
             for ks in itt.combinations(keys, kg + kd):
                 if len({s for _, s in ks if s}) > 2:
                     continue
@@ -241,6 +243,9 @@ def jobs_for(t):
             add(g, pairs_for(g.nodes, 1, 1, 2))
         for g in family(3, labellings=("fwd",), n_min=3):
             add(g, pairs_for(g.nodes, 1, 1, 1, stride=4, offset=seed()))
+            # several outcomes, one condition: rule 2 must hold for every outcome before a condition becomes an intervention
+            add(g, pairs_for(g.nodes, 0, 2, 1, shapes=[(2, 1)]))
+            add(g, pairs_for(g.nodes, 1, 2, 1, shapes=[(2, 1)], stride=48, offset=seed()))
         g = CURATED["fig9"]
         add(g, [((("Y", (("X", 0),), 0),), (("X", (), 1), ("Z", (("D", 0),), 0), ("D", (), 0)))])
     else:
@@ -249,6 +254,8 @@ def jobs_for(t):
         for g in family(3, n_min=3):
             add(g, pairs_for(g.nodes, 1, 1, 1))
             add(g, pairs_for(g.nodes, 1, 1, 2, stride=16, offset=seed()))
+            add(g, pairs_for(g.nodes, 0, 2, 1, shapes=[(2, 1)]))
+            add(g, pairs_for(g.nodes, 1, 2, 1, shapes=[(2, 1)], stride=6, offset=seed()))
         for name in ("fig9", "frontdoor", "napkin", "verma"):
             g = CURATED[name]
             add(g, pairs_for(g.nodes, 1, 1, 1, stride=4, offset=seed()))
@@ -264,7 +271,7 @@ def run() -> int:
         "returned Expression -> z3 terms over a symbolic response-type model (vf/sem/l3.py)",
     ]
     rep.bounds = {
-        "graphs": "quick: ADMGs <=2 nodes (1 outcome atom, <=2 condition atoms), 3 nodes (1+1 atoms, every 4th pair), subscripts <=1, + the figure-9 query; thorough: two labellings, <=2 nodes with 2+2 atoms and subscripts <=2 (every 3rd), 3 nodes 1+2 atoms (every 16th), curated 4/5-node graphs (every 4th)",
+        "graphs": "quick: ADMGs <=2 nodes (1 outcome atom, <=2 condition atoms), 3 nodes (1+1 atoms, every 4th pair; 2 outcome atoms + 1 condition atom: all without subscripts, every 48th with subscripts), subscripts <=1, + the figure-9 query; thorough: two labellings, <=2 nodes with 2+2 atoms and subscripts <=2 (every 3rd), 3 nodes 1+2 atoms (every 16th) and 2+1 atoms (all without subscripts, every 6th with), curated 4/5-node graphs (every 4th)",
         "models": "all positive functional SCMs over binary variables, one binary latent per bidirected edge (response-type distributions free)",
         "per_query_timeout_ms": TIMEOUT_MS[t],
         "PYTHONHASHSEED": hashseed(),
